@@ -256,6 +256,206 @@ fn dedup(v: &[u16]) -> Vec<u16>
 }
 
 /// random dependency graphs over constants and structures
+pub struct GraphCase
+{
+	pub src: String,
+	/// code expected when a cycle was planted
+	pub expected: Option<u16>,
+	pub any_cycle_code: bool,
+	/// expected output of the acyclic program
+	pub want: String,
+	pub nodes: usize,
+	pub edges: usize,
+}
+
+/// constants and structures that depend on each other (values, array lengths,
+/// members, sizes), acyclic by construction, with a cycle of 1-3 nodes planted
+/// on request; declarations in random order
+pub fn dependency_graph(c: &mut Choices, plant_cycle: bool) -> GraphCase
+{
+	let n = 3 + c.draw(6);
+	#[derive(Clone, Copy, PartialEq)]
+	enum Kind
+	{
+		Const,
+		Struct,
+	}
+	let kinds: Vec<Kind> =
+		(0..n).map(|_| if c.flag() { Kind::Const } else { Kind::Struct }).collect();
+	// edges i -> j with j < i: acyclic by construction
+	let mut edges: Vec<(usize, usize)> = Vec::new();
+	for i in 1..n
+	{
+		for j in 0..i
+		{
+			if c.chance(1, 3)
+			{
+				edges.push((i, j));
+			}
+		}
+	}
+	// pointer members never count as containment
+	let mut pointer_edges: Vec<(usize, usize)> = Vec::new();
+	for i in 0..n
+	{
+		if kinds[i] == Kind::Struct && c.chance(1, 3)
+		{
+			let j = c.draw(n);
+			if kinds[j] == Kind::Struct
+			{
+				pointer_edges.push((i, j));
+			}
+		}
+	}
+	// plant a cycle in every other case
+	let mut expected: Option<u16> = None;
+	let mut any_cycle_code = false;
+	if plant_cycle
+	{
+		let len = 1 + c.draw(3.min(n));
+		let mut nodes: Vec<usize> = Vec::new();
+		while nodes.len() < len
+		{
+			let k = c.draw(n);
+			if !nodes.contains(&k)
+			{
+				nodes.push(k);
+			}
+			if c.exhausted() && nodes.len() < len
+			{
+				for k in 0..n
+				{
+					if nodes.len() < len && !nodes.contains(&k)
+					{
+						nodes.push(k);
+					}
+				}
+			}
+		}
+		for w in 0..len
+		{
+			let e = (nodes[w], nodes[(w + 1) % len]);
+			if !edges.contains(&e)
+			{
+				edges.push(e);
+			}
+		}
+		// the exact code is asserted only where the docs' descriptions
+		// cannot overlap: graphs made of constants only (E413) or of
+		// structures only (E415); otherwise any of E413/E415/E416
+		let all_const = kinds.iter().all(|k| *k == Kind::Const);
+		let all_struct = kinds.iter().all(|k| *k == Kind::Struct);
+		expected = Some(if all_const { 413 } else if all_struct { 415 } else { 416 });
+		any_cycle_code = !(all_const || all_struct);
+		// other cycles may exist now through the extra edges; the planted
+		// one is guaranteed, so the expected code must be among the codes
+	}
+	// sizes / values in topological order for the acyclic case
+	let name = |k: usize| match kinds[k]
+	{
+		Kind::Const => format!("K{}", k),
+		Kind::Struct => format!("T{}", k),
+	};
+	let mut decls: Vec<String> = Vec::new();
+	let mut value: Vec<u128> = vec![0; n]; // const value or struct size
+	let mut align: Vec<u128> = vec![1; n];
+	for i in 0..n
+	{
+		let deps: Vec<usize> = edges.iter().filter(|(a, _)| *a == i).map(|(_, b)| *b).collect();
+		match kinds[i]
+		{
+			Kind::Const =>
+			{
+				let mut terms = vec![format!("{}", i + 1)];
+				let mut v = (i + 1) as u128;
+				for d in &deps
+				{
+					match kinds[*d]
+					{
+						Kind::Const =>
+						{
+							terms.push(name(*d));
+							v += value[*d];
+						}
+						Kind::Struct =>
+						{
+							terms.push(format!("|:{}|", name(*d)));
+							v += value[*d];
+						}
+					}
+				}
+				value[i] = v;
+				decls.push(format!("const {}: usize = {};", name(i), terms.join(" + ")));
+			}
+			Kind::Struct =>
+			{
+				let mut members = vec![format!("\tbase{}: u8,", i)];
+				let mut off: u128 = 1;
+				let mut maxa: u128 = 1;
+				for d in &deps
+				{
+					match kinds[*d]
+					{
+						Kind::Struct =>
+						{
+							members.push(format!("\tin{}_{}: {},", i, d, name(*d)));
+							let a = align[*d];
+							off = (off + a - 1) / a * a;
+							off += value[*d];
+							maxa = maxa.max(a);
+						}
+						Kind::Const =>
+						{
+							members.push(format!("\tarr{}_{}: [{}]u8,", i, d, name(*d)));
+							off += value[*d];
+						}
+					}
+				}
+				for (a, b) in &pointer_edges
+				{
+					if *a == i
+					{
+						members.push(format!("\tptr{}_{}: &{},", i, b, name(*b)));
+						off = (off + 7) / 8 * 8 + 8;
+						maxa = maxa.max(8);
+					}
+				}
+				value[i] = (off + maxa - 1) / maxa * maxa;
+				align[i] = maxa;
+				decls.push(format!("struct {}\n{{\n{}\n}}", name(i), members.join("\n")));
+			}
+		}
+	}
+	let mut main = String::from("fn main() -> i32\n{\n");
+	let mut want = String::new();
+	for i in 0..n
+	{
+		match kinds[i]
+		{
+			Kind::Const => main.push_str(&format!("\tprint!({}, \"\\n\");\n", name(i))),
+			Kind::Struct => main.push_str(&format!("\tprint!(|:{}|, \"\\n\");\n", name(i))),
+		}
+		want.push_str(&format!("{}\n", value[i]));
+	}
+	main.push_str("\treturn: 0\n}");
+	decls.push(main);
+	// any order
+	for i in (1..decls.len()).rev()
+	{
+		let j = c.draw(i + 1);
+		decls.swap(i, j);
+	}
+	let src = decls.join("\n\n") + "\n";
+	GraphCase {
+		src,
+		expected,
+		any_cycle_code,
+		want,
+		nodes: n,
+		edges: edges.len(),
+	}
+}
+
 struct Graphs;
 impl Stream for Graphs
 {
@@ -274,181 +474,16 @@ impl Stream for Graphs
 	fn run(&self, idx: u64, c: &mut Choices, ctx: &RunCtx) -> CaseOut
 	{
 		let mut out = CaseOut::default();
-		let n = 3 + c.draw(6);
-		#[derive(Clone, Copy, PartialEq)]
-		enum Kind
-		{
-			Const,
-			Struct,
-		}
-		let kinds: Vec<Kind> =
-			(0..n).map(|_| if c.flag() { Kind::Const } else { Kind::Struct }).collect();
-		// edges i -> j with j < i: acyclic by construction
-		let mut edges: Vec<(usize, usize)> = Vec::new();
-		for i in 1..n
-		{
-			for j in 0..i
-			{
-				if c.chance(1, 3)
-				{
-					edges.push((i, j));
-				}
-			}
-		}
-		// pointer members never count as containment
-		let mut pointer_edges: Vec<(usize, usize)> = Vec::new();
-		for i in 0..n
-		{
-			if kinds[i] == Kind::Struct && c.chance(1, 3)
-			{
-				let j = c.draw(n);
-				if kinds[j] == Kind::Struct
-				{
-					pointer_edges.push((i, j));
-				}
-			}
-		}
-		// plant a cycle in every other case
-		let mut expected: Option<u16> = None;
-		let mut any_cycle_code = false;
-		if idx % 2 == 1
-		{
-			let len = 1 + c.draw(3.min(n));
-			let mut nodes: Vec<usize> = Vec::new();
-			while nodes.len() < len
-			{
-				let k = c.draw(n);
-				if !nodes.contains(&k)
-				{
-					nodes.push(k);
-				}
-				if c.exhausted() && nodes.len() < len
-				{
-					for k in 0..n
-					{
-						if nodes.len() < len && !nodes.contains(&k)
-						{
-							nodes.push(k);
-						}
-					}
-				}
-			}
-			for w in 0..len
-			{
-				let e = (nodes[w], nodes[(w + 1) % len]);
-				if !edges.contains(&e)
-				{
-					edges.push(e);
-				}
-			}
-			// the exact code is asserted only where the docs' descriptions
-			// cannot overlap: graphs made of constants only (E413) or of
-			// structures only (E415); otherwise any of E413/E415/E416
-			let all_const = kinds.iter().all(|k| *k == Kind::Const);
-			let all_struct = kinds.iter().all(|k| *k == Kind::Struct);
-			expected = Some(if all_const { 413 } else if all_struct { 415 } else { 416 });
-			any_cycle_code = !(all_const || all_struct);
-			// other cycles may exist now through the extra edges; the planted
-			// one is guaranteed, so the expected code must be among the codes
-		}
-		// sizes / values in topological order for the acyclic case
-		let name = |k: usize| match kinds[k]
-		{
-			Kind::Const => format!("K{}", k),
-			Kind::Struct => format!("T{}", k),
-		};
-		let mut decls: Vec<String> = Vec::new();
-		let mut value: Vec<u128> = vec![0; n]; // const value or struct size
-		let mut align: Vec<u128> = vec![1; n];
-		for i in 0..n
-		{
-			let deps: Vec<usize> = edges.iter().filter(|(a, _)| *a == i).map(|(_, b)| *b).collect();
-			match kinds[i]
-			{
-				Kind::Const =>
-				{
-					let mut terms = vec![format!("{}", i + 1)];
-					let mut v = (i + 1) as u128;
-					for d in &deps
-					{
-						match kinds[*d]
-						{
-							Kind::Const =>
-							{
-								terms.push(name(*d));
-								v += value[*d];
-							}
-							Kind::Struct =>
-							{
-								terms.push(format!("|:{}|", name(*d)));
-								v += value[*d];
-							}
-						}
-					}
-					value[i] = v;
-					decls.push(format!("const {}: usize = {};", name(i), terms.join(" + ")));
-				}
-				Kind::Struct =>
-				{
-					let mut members = vec![format!("\tbase{}: u8,", i)];
-					let mut off: u128 = 1;
-					let mut maxa: u128 = 1;
-					for d in &deps
-					{
-						match kinds[*d]
-						{
-							Kind::Struct =>
-							{
-								members.push(format!("\tin{}_{}: {},", i, d, name(*d)));
-								let a = align[*d];
-								off = (off + a - 1) / a * a;
-								off += value[*d];
-								maxa = maxa.max(a);
-							}
-							Kind::Const =>
-							{
-								members.push(format!("\tarr{}_{}: [{}]u8,", i, d, name(*d)));
-								off += value[*d];
-							}
-						}
-					}
-					for (a, b) in &pointer_edges
-					{
-						if *a == i
-						{
-							members.push(format!("\tptr{}_{}: &{},", i, b, name(*b)));
-							off = (off + 7) / 8 * 8 + 8;
-							maxa = maxa.max(8);
-						}
-					}
-					value[i] = (off + maxa - 1) / maxa * maxa;
-					align[i] = maxa;
-					decls.push(format!("struct {}\n{{\n{}\n}}", name(i), members.join("\n")));
-				}
-			}
-		}
-		let mut main = String::from("fn main() -> i32\n{\n");
-		let mut want = String::new();
-		for i in 0..n
-		{
-			match kinds[i]
-			{
-				Kind::Const => main.push_str(&format!("\tprint!({}, \"\\n\");\n", name(i))),
-				Kind::Struct => main.push_str(&format!("\tprint!(|:{}|, \"\\n\");\n", name(i))),
-			}
-			want.push_str(&format!("{}\n", value[i]));
-		}
-		main.push_str("\treturn: 0\n}");
-		decls.push(main);
-		// any order
-		for i in (1..decls.len()).rev()
-		{
-			let j = c.draw(i + 1);
-			decls.swap(i, j);
-		}
-		let src = decls.join("\n\n") + "\n";
+		let GraphCase {
+			src,
+			expected,
+			any_cycle_code,
+			want,
+			nodes: n,
+			edges,
+		} = dependency_graph(c, idx % 2 == 1);
 		out.key = fnv(&src);
-		out.nontrivial = n >= 4 && edges.len() >= 2;
+		out.nontrivial = n >= 4 && edges >= 2;
 		match expected
 		{
 			Some(code) =>
